@@ -61,7 +61,8 @@ func (publisherSelf *PublisherDef[T]) Unsubscribe(s *Subscription[T]) {
 		for i, v := range subscribers {
 			if v == s {
 				isAnyMatching = true
-				subscribers = append(subscribers[:i], subscribers[i+1:]...)
+				// Copy on write: a Publish in progress still iterates the old slice
+				subscribers = append(subscribers[:i:i], subscribers[i+1:]...)
 				publisherSelf.subscribers = subscribers
 				break
 			}
